@@ -653,7 +653,7 @@ func c06everyChunkCopied(c *Ctx, r *Result) {
 				isHeader = true // back edge p -> b
 			}
 		}
-		if isHeader && b.Dominates(copyCall.Block()) {
+		if isHeader && naturalLoop(b)[copyCall.Block()] {
 			if hdr == nil || hdr.Dominates(b) {
 				hdr = b
 			}
@@ -666,8 +666,9 @@ func c06everyChunkCopied(c *Ctx, r *Result) {
 	env := &polyEnv{c: c, fn: fn}
 	bad := ""
 	n := 0
+	loop := naturalLoop(hdr)
 	for _, b := range fn.Blocks {
-		if !hdr.Dominates(b) || b == hdr || !reachableFrom(b, nil)[hdr] {
+		if !loop[b] || b == hdr {
 			continue
 		}
 		for _, s := range b.Succs {
@@ -682,7 +683,7 @@ func c06everyChunkCopied(c *Ctx, r *Result) {
 			n++
 			// skip: justified only by a dominating fact start >= dims, i.e. scaled*chunksize - dimensions >= 0
 			ok := false
-			for _, f := range env.factsAt(b) {
+			for _, f := range env.factsOnEdge(b, hdr) {
 				if f.Rel == ">=0" && (f.P.equal(P("chunksize*scaled", 1, "dims", -1)) || f.P.equal(P("chunksize*scaled", 1, "dimensions", -1))) {
 					ok = true
 				}
@@ -698,4 +699,28 @@ func c06everyChunkCopied(c *Ctx, r *Result) {
 	}
 	r.Check(bad == "", "C06.8", c.Name(fn)+"#every-listed-chunk-copied", firstNonEmpty(bad, c.InstrPos(copyCall)), "every iteration of the chunk loop reaches copyChunkToArray (or returns an error); a chunk may only be skipped where scaled*chunkSize >= dims is established (a partial boundary chunk starts inside the extent and holds data)")
 	r.Floor("C06.8", 1)
+}
+
+// naturalLoop: the blocks of the natural loop(s) with header h (h plus every block that reaches a back-edge source without
+// passing through h).
+func naturalLoop(h *ssa.BasicBlock) map[*ssa.BasicBlock]bool {
+	loop := map[*ssa.BasicBlock]bool{h: true}
+	var work []*ssa.BasicBlock
+	for _, p := range h.Preds {
+		if h.Dominates(p) && !loop[p] {
+			loop[p] = true
+			work = append(work, p)
+		}
+	}
+	for len(work) > 0 {
+		x := work[len(work)-1]
+		work = work[:len(work)-1]
+		for _, p := range x.Preds {
+			if !loop[p] {
+				loop[p] = true
+				work = append(work, p)
+			}
+		}
+	}
+	return loop
 }
